@@ -106,3 +106,88 @@ const (
 	VerifForwardKey = forwardMetadataKey
 	VerifConnIdxKey = batchConnIdxMetadataKey
 )
+
+// VerifCallerKey is the context key under which the harness stores the caller number of a request; the batch
+// entries keep the caller's context (entry.ctx), so white-box dumps can name the caller of every entry.
+type VerifCallerKey struct{}
+
+func verifCaller(e *batchCommandsEntry) int64 {
+	if e == nil || e.ctx == nil {
+		return -1
+	}
+	if v, ok := e.ctx.Value(VerifCallerKey{}).(int64); ok {
+		return v
+	}
+	return -1
+}
+
+// VerifRoundItem is one entry of a builder dump.
+type VerifRoundItem struct {
+	ID       uint64 // 0 for entries still in the priority queue
+	Host     string
+	Caller   int64
+	Pri      uint64
+	Canceled bool
+}
+
+// VerifRound is the state of batchConn.reqBuilder right after buildWithLimit: the groups built in this round (direct +
+// forwarding), the entries left in the priority queue and the id source.
+type VerifRound struct {
+	IDAlloc uint64
+	Built   []VerifRoundItem
+	Left    []VerifRoundItem
+}
+
+// VerifRoundDump reads the builder. It MUST be called from the batchSendLoop goroutine (the harness calls it from
+// the gRPC stream interceptor inside batchCommandsClient.send: SendMsg, or stream creation by initBatchClient),
+// which is the only goroutine that touches the builder.
+func VerifRoundDump(h interface{}) VerifRound {
+	var r VerifRound
+	p, ok := h.(*connPool)
+	if !ok || p == nil || p.batchConn == nil {
+		return r
+	}
+	b := p.batchConn.reqBuilder
+	r.IDAlloc = b.idAlloc
+	add := func(g *batchCommandsRequestGroup, host string) {
+		if g == nil || g.req == nil {
+			return
+		}
+		for i, id := range g.req.RequestIds {
+			if i < len(g.entries) && g.entries[i] != nil {
+				e := g.entries[i]
+				r.Built = append(r.Built, VerifRoundItem{ID: id, Host: host, Caller: verifCaller(e), Pri: e.pri, Canceled: atomic.LoadInt32(&e.canceled) == 1})
+			}
+		}
+	}
+	add(&b.directGroup, "")
+	for host, g := range b.forwardingGroups {
+		add(g, host)
+	}
+	for _, it := range b.entries.all() {
+		e := it.(*batchCommandsEntry)
+		r.Left = append(r.Left, VerifRoundItem{Host: e.forwardedHost, Caller: verifCaller(e), Pri: e.pri, Canceled: atomic.LoadInt32(&e.canceled) == 1})
+	}
+	return r
+}
+
+// VerifStreamExists tells whether the batch client of connection conn already has a stream for host. Called from the
+// stream interceptor: false means the stream is being created by initBatchClient (send loop goroutine), true means
+// it is being re-created by a recv loop (which holds the re-create lock, so the maps are stable).
+func VerifStreamExists(h interface{}, conn string, host string) bool {
+	p, ok := h.(*connPool)
+	if !ok || p == nil || p.batchConn == nil {
+		return true
+	}
+	for _, bc := range p.batchCommandsClients {
+		if bc.connIdx != conn {
+			continue
+		}
+		if host == "" {
+			return bc.client != nil
+		}
+		_, ok := bc.forwardedClients[host]
+		return ok
+	}
+	return true
+}
